@@ -3554,6 +3554,12 @@ static CK_RV SymDecryptFinal(Session* session, CK_BYTE_PTR pDecryptedData, CK_UL
 		}
 		// It is at least one padding byte. If no padding the all remains will be returned.
 		size_t paddingAdjustByte = cipher->getPaddingMode() ? 1 : 0;
+		if (remainingSize < paddingAdjustByte)
+		{
+			// A padded ciphertext has at least one block
+			session->resetOp();
+			return CKR_ENCRYPTED_DATA_LEN_RANGE;
+		}
 		size = remainingSize - paddingAdjustByte;
 	}
 
